@@ -40,7 +40,8 @@ PROBES = ['rows_unsorted', 'multi_call_partition', 'custom_var',
           'custom_estimate', 'custom_attribute_used', 'two_temporal_keys',
           'eviction_inside_over_time', 'single_step', 'nonscalar_custom',
           'estimates_only_call', 'repeated_request', 'tensor_input_columns',
-          'frozen_checked_instances']
+          'frozen_checked_instances', 'mixed_type_temporal_column',
+          'several_customs_in_one_dict']
 COMPONENTS = dict(cc.COMPONENTS)
 COMPONENTS['aurel.time.over_time / process_single_timestep / validate_*'] = \
     'real'
@@ -141,7 +142,10 @@ def generate(rng, tier):
     return {'config': cfg, 'ops': calls, 'nsteps': nsteps, 'tkeys': tkeys,
             'order': order, 'vars': vars_, 'ests': ests,
             'dt': g.pick([0.25, 0.5, 1.0]),
-            'myscale': g.pick([2.5, -1.0, 0.5])}
+            'myscale': g.pick([2.5, -1.0, 0.5]),
+            # the earliest time value is given as a Python int (mixed-type
+            # temporal column), several custom variables share one dict
+            't_int_first': g.chance(0.3), 'merge_custom': g.chance(0.4)}
 
 
 def fixup(run):
@@ -162,6 +166,9 @@ def simplify(run):
         c = copy.deepcopy(run); c['order'] = sorted(c['order']); yield c
     if len(run['tkeys']) > 1:
         c = copy.deepcopy(run); c['tkeys'] = c['tkeys'][:1]; yield c
+    for flag in ('t_int_first', 'merge_custom'):
+        if run.get(flag):
+            c = copy.deepcopy(run); c[flag] = False; yield c
     for i in range(len(run['ests'])):
         if len(run['ests']) > 1:
             c = copy.deepcopy(run)
@@ -219,6 +226,11 @@ def execute(run):
     order = [o for o in run['order'] if o < n] or list(range(n))
     tval = {'it': lambda k: 10 * k + 3, 'iteration': lambda k: 4 * k,
             't': lambda k: 0.5 + 0.25 * k, 'time': lambda k: 1.0 + 0.125 * k}
+    if run.get('t_int_first'):
+        tval['t'] = lambda k: 0 if k == 0 else 0.5 + 0.25 * k
+        tval['time'] = lambda k: 1 if k == 0 else 1.0 + 0.125 * k
+        if any(t in run['tkeys'] for t in ('t', 'time')):
+            probe('mixed_type_temporal_column')
     table = {tk: [tval[tk](k) for k in order] for tk in run['tkeys']}
     for key in sorted(worlds[0].data):
         table[key] = [np.array(worlds[k].data[key]) for k in order]
@@ -268,7 +280,12 @@ def execute(run):
                 if 'name' in v:
                     vlist.append(v['name'])
                 else:
-                    vlist.append({v['custom']: CUSTOM_VARS[v['custom']]})
+                    if (run.get('merge_custom') and vlist
+                            and isinstance(vlist[-1], dict)):
+                        vlist[-1][v['custom']] = CUSTOM_VARS[v['custom']]
+                        probe('several_customs_in_one_dict')
+                    else:
+                        vlist.append({v['custom']: CUSTOM_VARS[v['custom']]})
                     probe('custom_var')
                     if v['custom'] == 'detscale':
                         probe('custom_attribute_used')
